@@ -368,9 +368,55 @@ func randomRectCase(rd *rand.Rand, kind string, id int) *conCase {
 	return c
 }
 
+// chunkCase builds a map that compresses to exactly nS singles and nR ranges:
+// the writer emits sections of at most 100 entries.
+func chunkCase(kind string, nS, nR int, id int) *conCase {
+	c := &conCase{Kind: kind, CSR: spaces["2byte"], Origin: fmt.Sprintf("chunks:%s/singles=%d/ranges=%d", kind, nS, nR)}
+	c.Opt = options{Version: versionNames[id%len(versionNames)], Pretty: id%2 == 0, WMode: id % 2}
+	lay := layer{Notdef: []notdef{}}
+	value := func(i int) val {
+		if kind == "cid" {
+			return cidVal(10 + 7*i)
+		}
+		return textVal([]int{0x4e00 + 7*i})
+	}
+	n := 0
+	// singles: every third code of the rows 0x10.., values not consecutive
+	for i := 0; i < nS; i++ {
+		code := []int{0x10 + (3*i)/256, (3 * i) % 256}
+		lay.Entries = append(lay.Entries, entry{C: code, V: value(n)})
+		n += 3
+	}
+	// ranges: pairs of consecutive codes with consecutive values in the rows 0x80..
+	for i := 0; i < nR; i++ {
+		a := []int{0x80 + (4*i)/256, (4 * i) % 256}
+		b := []int{a[0], a[1] + 1}
+		v := value(n)
+		w := v
+		if kind == "cid" {
+			w = cidVal(v.N + 1)
+		} else {
+			w = textVal([]int{v.T[0] + 1})
+		}
+		lay.Entries = append(lay.Entries, entry{C: a, V: v}, entry{C: b, V: w})
+		n += 3
+	}
+	c.Layers = []layer{lay}
+	for i, e := range lay.Entries {
+		if i%9 == 0 || i >= len(lay.Entries)-3 {
+			c.Probes = append(c.Probes, e.C)
+		}
+	}
+	c.Probes = append(c.Probes, []int{0x10, 1}, []int{0x80, 2}, []int{0xff, 0xff}, []int{0x10})
+	return c
+}
+
 func randomCases(ctx *core.Ctx) []*conCase {
 	rd := ctx.Rand("random-maps")
 	var out []*conCase
+	for i, p := range [][2]int{{99, 1}, {100, 100}, {101, 201}, {200, 99}, {201, 0}, {0, 101}} {
+		out = append(out, chunkCase("cid", p[0], p[1], 2*i), chunkCase("tu", p[0], p[1], 2*i+1))
+	}
 	n := ctx.Pick(40, 300)
 	for i := 0; i < n; i++ {
 		kind := "cid"
